@@ -2,7 +2,7 @@
 """Regenerates /verif/MANIFEST.json from checks.json (+ not-yet-claimed reasons) and validates it."""
 import json, os, sys, subprocess
 ROOT = os.path.dirname(os.path.dirname(os.path.abspath(__file__)))
-reg = json.load(open(os.path.join(ROOT, "checks.json")))
+reg = {f[:-5]: json.load(open(os.path.join(ROOT, "checks.d", f))) for f in sorted(os.listdir(os.path.join(ROOT, "checks.d"))) if f.endswith(".json")}
 props = [json.loads(l) for l in open(os.path.join(ROOT, "properties.jsonl"))]
 pending = json.load(open(os.path.join(ROOT, "tools", "pending.json")))
 hooks_commits = []
